@@ -338,8 +338,11 @@ def run (c : Cfg) : Nat → Call → World → Res × World × List Item
       | r => r
     | .setAttr p v =>
       if c.isEvent p then
-        -- `Event.__set__`: in modes 'set-reset' and 'set' run the ordinary setter; then, unless the
-        -- mode (re-read) is 'set', `_reset_event` puts False back without any event (in a `finally`).
+        -- `Event.__set__`: a value that is going to be rejected is rejected up front and leaves the event
+        -- as it is (it may be True while its watchers run).  Otherwise, in modes 'set-reset' and 'set',
+        -- run the ordinary setter; then, unless the mode (re-read) is 'set', `_reset_event` puts False
+        -- back without any event (in a `finally`).
+        if !c.valid p v then (.raised .value, w, []) else
         match run c f (.setPlain p v) w with
         | (.oof, w1, o1) => (.oof, w1, o1)
         | (r, w1, o1) =>
